@@ -1222,7 +1222,12 @@ class FnAnalysis:
                         blamed = False
                         self.eng.stats["inexact_possible"] = self.eng.stats.get("inexact_possible", 0) + 1
                     # ... or the result's attained watermark is itself outside the type (independence-free)
-                    wl, wh = res.wm
+                    # (an untainted operand with a range - e.g. constants joined over branches - may be correlated with the
+                    # tainted one through control flow: it contributes its sound bounds only, no attained marks)
+                    da = a if (a.t or a.lo == a.hi) else AV(a.lo, a.hi)
+                    db = b if (b.t or b.lo == b.hi) else AV(b.lo, b.hi)
+                    rw = self.arith(op, da, db, ty)
+                    wl, wh = rw.wm if isinstance(rw, AV) else (None, None)
                     if not blamed and ((wh is not None and wh > r[1]) or (wl is not None and wl < r[0])):
                         blamed = True
                         self.eng.stats["watermark_blames"] = self.eng.stats.get("watermark_blames", 0) + 1
@@ -1692,6 +1697,27 @@ class FnAnalysis:
             return a0 if isinstance(a0, (Lazy, Rec, Fl)) and base_ty(dty) == base_ty(getattr(a0, "ty", dty)) else eng.top(dty, getattr(a0, "t", False), getattr(a0, "why", ""))
         if name == "new" and "RangeInclusive" in path and len(args) == 2:
             return Rec({"start": a0, "end": a1, "incl": AV(1, 1)})
+        if name in ("index", "index_mut") and path.startswith("core::ops::index::Index") and len(args) == 2:
+            # `ARRAY[a..b]` / `ARRAY[a..]` / `ARRAY[..b]` on a fixed-size array: a panic site like a bounds check
+            m_arr = re.match(r"^&?(?:mut )?\[.*; (\d+)\]$", (self.op_ty(t["args"][0]) or "").strip())
+            if m_arr and isinstance(a1, Rec):
+                n_el = int(m_arr.group(1))
+                self.cast_no = getattr(self, "cast_no", 0) + 1
+                skey = ("bounds", getattr(self, "cur_bb", 0) * 100 + 50 + self.cast_no)
+                ends = [v for k, v in a1.f.items() if k in ("start", "end") and isinstance(v, AV)]
+                incl = 1 if "incl" in a1.f or "RangeInclusive" in (self.op_ty(t["args"][1]) or "") or \
+                    "RangeToInclusive" in (self.op_ty(t["args"][1]) or "") else 0
+                known = [k for k in a1.f if k in ("start", "end")]
+                if ends and len(ends) == len(known):
+                    hi = max(v.hi for v in ends) + incl
+                    st_, en_ = a1.f.get("start"), a1.f.get("end")
+                    ordered = not (isinstance(st_, AV) and isinstance(en_, AV)) or st_.hi <= en_.lo + incl
+                    if hi <= n_el and ordered:
+                        self.site_results[skey] = (0, None)
+                    else:
+                        self.site_results[skey] = (1, None)
+                else:
+                    self.site_results[skey] = (1, None)
         if name == "abs" and isinstance(a0, AV) and r and path.startswith("core::num::"):
             # i*::abs() inherits the caller's overflow checks: MIN.abs() panics with them and stays MIN without
             self.cast_no = getattr(self, "cast_no", 0) + 1
